@@ -34,6 +34,7 @@ std::string tracked_error()
     std::lock_guard<std::mutex> g(r.m);
     return r.first_error;
 }
+void tracked_set_copy_hook(void (*h)()) { Tracked::copy_hook().store(h); }
 void tracked_reset()
 {
     auto&                       r = TrackedRegistry::get();
